@@ -17,6 +17,7 @@ CLAIMS = {
     'C05': dict(mods='StamSerial.tla, StamStore.tla', text='RoundTrip is an action of the store state machine: every generated history is extended with (and interrupted by) STAM JSON round trips - to a string (pretty and compact), to a file, and with resources and/or datasets in stand-off @include files - after which the history continues on the reloaded store. TLC requires the reloaded state to satisfy every store invariant (StateOK: indices, id maps, no dangling references) and its view (live items by rank: ids, texts, keys, typed values, targets with kind, referenced items, absolute ranges and alignment mode, data references) to equal the view of the specification state; the digest of a second serialisation must equal the first.'),
     'C06': dict(mods='StamRelations.tla, StamRead.tla, MC_Laws.tla', text='TLC checks on MC_Laws that related text under a negated operator is the complement within the known selections; for every set of known selections of a text reachable within the depth (nested, crossing, adjacent, zero-width, touching the end, both halves) and every reference (every range bound or unbound, every pair of known selections, every annotation) the result of related_text under every operator x all x negate x whitespace x limit combination must be exactly the set RelatedTextExpected derives from the relation definitions, each selection once.'),
     'C07': dict(mods='StamText.tla, StamRead.tla, MC_Laws.tla', text='TLC checks on MC_Laws that Split and Segmentation partition the searched range and that matches carry the needle; for every text up to the bound over four alphabets (1-4 byte characters, case pairs, a character whose lower-casing changes length, whitespace), on the whole resource and on every sub-range, find / nocase / split / trim / regex (capture groups, alternation, optional groups) / sequence must return exactly the ranges (and group numbers) StamText derives; segmentation for every set of known selections.'),
+    'C09': dict(mods='StamQuery.tla, Gen_Query.tla', text='the STAMQL grammar is a menu of query ASTs in Gen_Query.tla (six result types, every constraint kind with its qualifiers, operators and typed values, offsets, unions, limits, one and two levels of (optional, multiple) sub-queries) printed by the canonical printer PrintQ of the specification; TLC also derives token-level mutations (truncation after every token, deletion, duplication, junk and extreme numeric literals in every position) and hand-written inputs outside the SELECT grammar. For every text the harness parses, prints, re-parses and re-prints, and builds every menu query programmatically; TLC requires (ParseOK): never a panic; for grammar and built queries acceptance, the parsed structure equal to the intended AST, and print-parse-print a fixpoint in structure and text; for mutated input whatever is accepted must also be a fixpoint.'),
     'C10': dict(mods='StamStore.tla', text='TLC checks KeyDataExact and the insert_data sharing rule on the bounded model; datasets, keys, data items and key_data_map of the real store must equal the specification\'s after every step of generated histories.'),
     'C11': dict(mods='StamSerial.tla, StamStore.tla', text='every generated history (incl. removals leaving tombstones) is extended with and interrupted by CBOR save/load; TLC requires the reloaded projection - items, handles, tombstones, id maps, every raw reverse index row, position index - to be identical to the specification state, all public reverse lookups to answer as before, and the history (further mutations, lookups, text queries) to continue on the loaded store with every later step validated as usual.'),
     'C12': dict(mods='StamText.tla, StamRead.tla', text='Utf8Byte/ByteToChar for every position and byte offset (incl. beyond the text and inside characters) on resources, ranges and annotations must equal ByteOf/CharOf of StamText under milestone intervals 0,1,2,3,7,100, before and after annotations populate the position index; the specification has no configuration variable, so one specification must accept the traces of every configuration (ShrinkToFit is an action that leaves the state unchanged); the position index dump must carry exact byte offsets.'),
